@@ -807,6 +807,8 @@ class SimulationBuilder:
             for axis in parallel_axes:
                 axis_index = axis.get("index", 0)
                 axis_period = axis.get("period", self.default_period)
+                if axis_period is not None:
+                    axis_period = str(periods.period(axis_period))
                 axis_name = axis["name"]
                 variable = axis_entity.get_variable(axis_name)
                 array = self.get_input(axis_name, str(axis_period))
@@ -839,6 +841,8 @@ class SimulationBuilder:
                 for axis in parallel_axes:
                     axis_index = axis.get("index", 0)
                     axis_period = axis.get("period", self.default_period)
+                    if axis_period is not None:
+                        axis_period = str(periods.period(axis_period))
                     axis_name = axis["name"]
                     variable = axis_entity.get_variable(axis_name, check_existence=True)
                     array = self.get_input(axis_name, str(axis_period))
